@@ -436,6 +436,12 @@ class ScriptSession:
                     self.failed = "no continued event"
                     break
                 self.view = "running"
+            elif self.view == "running" and a == "runstep":
+                # a step although no stop was reported (clients do not do that; the property quantifies over any interleaving)
+                if not d.request("stepIn", {"threadId": 1}, self.timeout):
+                    self.failed = "no response to stepIn"
+                    break
+                self.after_stop_or_end(self._ev(("stopped", "terminated"), mark), gap)
             elif self.view == "stopped" and a in STEP_CMDS:
                 if not d.request(a, {"threadId": 1}, self.timeout):
                     self.failed = "no response to " + a
